@@ -127,6 +127,8 @@ class Ref:
         self.ncalls_total = 0
         self.steps = 0
         self.ambiguous_defs = set()
+        self.in_fn = 0              # > 0 while the body of a called function runs
+        self.scope_defs = []        # handles (re)defined so far in each open conditional / evaluated body
         self.opstat = {}
         self.partial = None
 
@@ -209,7 +211,11 @@ class Ref:
 
     def sub(self, body, defs, depth):
         d2 = dict(defs)
-        r = self.run(body, d2, depth)
+        self.scope_defs.append(set())
+        try:
+            r = self.run(body, d2, depth)
+        finally:
+            self.scope_defs.pop()
         for h in d2:
             if d2[h] is not defs.get(h):
                 self.ambiguous_defs.add(h)
@@ -406,20 +412,32 @@ class Ref:
                 st.put(TRUE if r else FALSE)
         elif name == 'OP_DEF':
             h = rd(1)
-            defs[h] = blk()
+            body = blk()
+            if self.in_fn:
+                raise Stop('definition inside a function body: "undocumented behavior" (language_spec.md)')
+            defs[h] = body
             self.ambiguous_defs.discard(h)
+            if self.scope_defs:
+                self.scope_defs[-1].add(h)
         elif name == 'OP_CALL':
             if depth >= self.limit:
                 raise Err('call limit')
             h = rd(1)
             if h in self.ambiguous_defs:
                 raise Stop('definition made inside a conditional body')
+            if self.in_fn and any(h in sc for sc in self.scope_defs):
+                raise Stop('a function calls a handle that an open conditional / evaluated body (re)defined: whether it binds to the '
+                           'table of its definition or of its caller is not documented')
             if h not in defs:
                 raise Err('undefined function')
             self.ncalls_total += 1
             if self.ncalls_total >= self.limit:
                 raise Stop('call budget accounting')
-            self.run(defs[h], defs, depth + 1)
+            self.in_fn += 1
+            try:
+                self.run(defs[h], defs, depth + 1)
+            finally:
+                self.in_fn -= 1
         elif name == 'OP_EVAL':
             self.eval_item(st.pop, defs, depth)
         elif name == 'OP_IF':
@@ -826,11 +844,10 @@ class Ref:
                     if 'sigfield%d' % i not in self.cache:
                         raise Stop('template for an absent sigfield: "False otherwise" or an error - not documented')
                     ok = ok and tpl == self.cache['sigfield%d' % i]
+            st.put(TRUE if ok else FALSE)           # the _VERIFY form "runs OP_CHECK_TEMPLATE and then OP_VERIFY": it needs the slot
             if name.endswith('VERIFY'):
-                if not ok:
+                if not truthy(st.pop()):
                     raise Err('verify')
-            else:
-                st.put(TRUE if ok else FALSE)
         elif name == 'OP_TAPROOT':
             allowed = u8()
             root = st.pop()
@@ -872,6 +889,10 @@ class Ref:
         self.ncalls_total += 1
         if self.ncalls_total >= self.limit:
             raise Stop('call budget accounting')
-        r = self.run(s, dict(defs), depth + 1)
+        self.scope_defs.append(set())
+        try:
+            r = self.run(s, dict(defs), depth + 1)
+        finally:
+            self.scope_defs.pop()
         if r and self.flags.get('eval_return'):
             self._returned = True
